@@ -27,14 +27,23 @@ def check(ctx, cfg):
     r3(ctx, cfg)
     r4(ctx, cfg)
     r5(ctx, cfg)
+    r6(ctx, cfg)
 
 
 def r5(ctx, cfg):
+    """"the sender it is told is ... the emitting contract for every sub-message": the C03.R3 obligations (execute_submsg hands
+    its own `contract` to the router as sender, process_response hands its own contract on, reply runs on that contract)
+    under C05's id"""
+    from rules import C03
+    C03.r3(ctx, cfg, R="C05.R5")
+
+
+def r6(ctx, cfg):
     """"attached funds ... are returned if the call fails": a failing call made as a sub-message may be absorbed by the
     dispatcher's reply, so the transfer must have happened in a cache layer that is dropped with the failure - the C02.R1
     obligations (every sub-message is dispatched inside `transactional` on a cache of the parent's storage) under C05's id"""
     from rules import C02
-    C02.r1(ctx, cfg, R="C05.R5")
+    C02.r1(ctx, cfg, R="C05.R6")
 
 
 def _msg_funds(o, fkey):
